@@ -147,6 +147,7 @@ func VerifC04Listen() {
 	drv := New("loop")
 	ins, _ := drv.Ins()
 	outs, _ := drv.Outs()
+	zz.RealDelay() // time stamps are on the driver's own clock (Driver.Sleep), whatever the wall clock does meanwhile
 	var log c04log
 	opts := []midi.Option{midi.UseSysEx(), midi.UseTimeCode(), midi.UseActiveSense()}
 	if sb := zz.Param("sxbuf"); sb > 0 {
